@@ -1292,7 +1292,7 @@ def catalog_family(run, replay=None):
     tpath = os.path.join(run.dir, 'trace.ndjson')
     out = run.harness('catalog', ['--trace', cpath, '--seed', run.seed, '--tier', run.tier])
     log('  ' + out.strip().splitlines()[-1][:300])
-    p = subprocess.run([sys.executable, os.path.join(ROOT, 'bin', 'metanorm.py'), '/repo/gen/metadata.json', mpath], stdout=subprocess.PIPE, stderr=subprocess.STDOUT)
+    p = subprocess.run([sys.executable, os.path.join(ROOT, 'bin', 'metanorm.py'), os.path.join(REPO, 'gen/metadata.json'), mpath], stdout=subprocess.PIPE, stderr=subprocess.STDOUT)
     if p.returncode != 0:
         raise ToolTrouble('metadata normalisation failed: ' + p.stdout.decode(errors='replace')[-800:])
     log('  ' + p.stdout.decode().strip())
